@@ -189,6 +189,11 @@ def _msg_tok(msg, payload, stream_evs):
     has = payload is not EMPTY_PAYLOAD
     exp = msg.headers.get("Expect", "")
     expect = 0 if not exp else (1 if exp.lower() == "100-continue" else 2)
+    if expect == 2:
+        try:
+            exp.encode("utf-8")
+        except UnicodeEncodeError:
+            expect = 3
     v11 = tuple(msg.version) == (1, 1)
     vge11 = tuple(msg.version) >= (1, 1)
     nostream = msg.method in ("HEAD", "CONNECT")
@@ -228,6 +233,7 @@ class Sim:
         self.calls = []           # parser oracle columns, one per feed_data call
         self.payload_owner = {}   # id(stream) -> message index (append order in _messages)
         self.n_msgs = 0
+        self.n_err_entries = 0    # _ErrInfo entries the protocol queued (parser raised HttpProcessingError)
         self.kinds = []           # per message index: normal / head / connect
         self.inflight_log = []
         self.max_q = 0
@@ -253,7 +259,8 @@ class Sim:
         app.router.add_route("*", "/{tail:.*}", handler)
         self.runner = web.AppRunner(app, access_log=None, handler_cancellation=bool(cfg.get("hcancel")),
                                     keepalive_timeout=cfg.get("keepalive_ms", 75000) / float(UPS),
-                                    lingering_time=cfg.get("linger_ms", 10000) / float(UPS))
+                                    lingering_time=cfg.get("linger_ms", 10000) / float(UPS),
+                                    **({"read_bufsize": int(cfg["read_bufsize"])} if cfg.get("read_bufsize") else {}))
         self.loop.run_until_complete(self.runner.setup())
         asyncio.events._set_running_loop(self.loop)
         import threading
@@ -281,10 +288,13 @@ class Sim:
                 await request.read()
             elif op in ("P", "W") and request.method in ("HEAD", "CONNECT"):
                 pass
-            elif op == "P":
+            elif op in ("P", "Q") and request.method in ("HEAD", "CONNECT"):
+                pass
+            elif op in ("P", "Q"):
                 stream = web.StreamResponse(headers=hdrs)
                 await stream.prepare(request)
-                await stream.write(b"x" * 5)
+                if op == "P":
+                    await stream.write(b"x" * 5)
             elif op == "W":
                 await stream.write(b"y" * 3)
             elif op == "ok":
@@ -357,6 +367,7 @@ class Sim:
                 toks.append(f"!{parser._msg_in_flight - before}")
                 sim.kinds.append("normal")
                 sim.n_msgs += 1   # the _ErrInfo entry
+                sim.n_err_entries += 1
             else:
                 toks.append("!!" + type(raised).__name__)
             sim.calls.append(",".join(toks))
